@@ -8,6 +8,7 @@ a plan is a pure function of its seed and configuration.  The objects are thrown
 Slots: ints handed out sequentially from ``base``.
 """
 
+import os
 import random
 
 import ufl
@@ -180,7 +181,8 @@ class Planner:
                 if se is not None:
                     elems.append((se, None))
             for e, _ in elems:
-                sp = self.call("ufl.FunctionSpace", self.ref(mesh), self.ref(e), kind="space")
+                kwl = {"label": r.choice(["a", "b", "bnd"])} if r.random() < self.cfg.get("label_p", 0.12) else {}
+                sp = self.call("ufl.FunctionSpace", self.ref(mesh), self.ref(e), kind="space", **kwl)
                 if sp is not None:
                     M["spaces"].append(sp)
             self.meshes.append(M)
@@ -1181,6 +1183,21 @@ class Planner:
                     S = self.call("operator.add", self.ref(L), self.ref(c1), kind="baseform")
                     if S is not None:
                         self.baseforms = [x for x in (S, c1, c2) if x is not None]
+        self.bf_env = None
+        if r.random() < self.cfg.get("matrix_p", float(os.environ.get("VERIF_MATRIX_P", "0.15"))):
+            # assembled-operator base forms: Matrix, Action(Matrix, coefficient), Adjoint
+            M = self.meshes[0]
+            V = M["V"]
+            dual = self.new()
+            mat = self.call("ufl.Matrix", self.ref(V), self.ref(V), kind="baseform")
+            uV = self.call("ufl.Coefficient", self.ref(V), kind="coef")
+            if mat is not None and uV is not None and self.emit(["meth", dual, self.ref(V), "dual", []], kind="space"):
+                A = self.call("ufl.Action", self.ref(mat), self.ref(uV), kind="baseform")
+                arg0 = self.call("ufl.Argument", self.ref(V), 0, kind="arg")
+                coarg = self.call("ufl.Coargument", self.ref(dual), 0, kind="arg")
+                adj = self.call("ufl.Adjoint", self.ref(mat), kind="baseform")
+                self.bf_env = {"arg": arg0, "coarg": coarg, "u": uV}
+                self.baseforms += [x for x in (mat, A, adj) if x is not None]
         setup_len = len(self.ops)
         nsteps = self.cfg.get("n_steps") or r.randint(3, 14)
         abort_p = self.cfg.get("abort_p", 0.5)
@@ -1193,7 +1210,7 @@ class Planner:
             if self.baseforms and r.random() < 0.3:
                 S = r.choice(self.baseforms)
                 other = r.choice(self.baseforms)
-                w = r.choice(["add", "sub", "radd", "neg", "scale", "addself", "hash", "eq"])
+                w = r.choice(["add", "sub", "radd", "neg", "scale", "scale", "addself", "hash", "eq"] + (["action_arg", "action_coarg", "action_fn", "adjoint", "action_u"] if self.bf_env else []))
                 if w == "add":
                     out = self.call("operator.add", self.ref(S), self.ref(other), keep_failed=kf, kind="baseform")
                 elif w == "sub":
@@ -1203,7 +1220,19 @@ class Planner:
                 elif w == "neg":
                     out = self.call("operator.neg", self.ref(S), keep_failed=kf, kind="baseform")
                 elif w == "scale":
-                    out = self.call("operator.mul", r.choice([2, 0.5, -1]), self.ref(S), keep_failed=kf, kind="baseform")
+                    out = self.call("operator.mul", r.choice([2, 0.5, -1, 1, 1.0]), self.ref(S), keep_failed=kf, kind="baseform")
+                elif w == "action_arg" and self.bf_env["arg"] is not None:
+                    out = self.call("ufl.Action", self.ref(S), self.ref(self.bf_env["arg"]), keep_failed=kf, kind="baseform")
+                elif w == "action_coarg" and self.bf_env["coarg"] is not None:
+                    out = self.call("ufl.Action", self.ref(self.bf_env["coarg"]), self.ref(S), keep_failed=kf, kind="baseform")
+                elif w == "action_fn":
+                    x = r.choice([self.bf_env["arg"], self.bf_env["u"], self.bf_env["coarg"]])
+                    kw = {"derivatives_expanded": True} if r.random() < 0.5 else {}
+                    out = self.call("ufl.action", self.ref(S), self.ref(x), keep_failed=kf, kind="baseform", **kw) if x is not None else None
+                elif w == "action_u":
+                    out = self.call("ufl.Action", self.ref(S), self.ref(self.bf_env["u"]), keep_failed=kf, kind="baseform")
+                elif w == "adjoint":
+                    out = self.call(r.choice(["ufl.adjoint", "ufl.Adjoint"]), self.ref(S), keep_failed=kf, kind="baseform")
                 elif w == "addself":
                     out = self.call("operator.add", self.ref(S), self.ref(S), keep_failed=kf, kind="baseform")
                 elif w == "hash":
@@ -1446,6 +1475,13 @@ class Planner:
                 for m2 in others:
                     choices += m2["spaces"][:1]
                 opts = [("same", sp)] + [("space", s) for s in r.sample(choices, min(2, len(choices)))]
+                spop = next((op for op in self.ops if op[0] == "call" and op[1] == sp and op[2] == "ufl.FunctionSpace"), None)
+                if spop is not None and r.random() < 0.5:
+                    # the same space up to its label
+                    lab = (spop[4] if len(spop) > 4 else {}).get("label")
+                    s3 = self.call("ufl.FunctionSpace", *spop[3], kind="space", label="c" if lab != "c" else "d")
+                    if s3 is not None:
+                        opts.append(("label", s3))
                 for what, s2 in opts:
                     t = self.call("ufl.Coefficient", self.ref(s2), kind="coef", count=cnt)
                     if t is not None:
